@@ -7,7 +7,9 @@ import Peppi.Props.C11
 #print axioms Peppi.Props.C11.hexN_lower
 #print axioms Peppi.Props.C11.formatHash_inj
 #print axioms Peppi.Props.C11.C11_range_any
+#print axioms Peppi.Props.C11.C11_value_any
 #print axioms Peppi.Props.C11.frag
 #print axioms Peppi.Props.C11.run_readProg
 #print axioms Peppi.Props.C11.readSlpS_frag
 #print axioms Peppi.Props.C11.decPeppiJ_enc
+#print axioms Peppi.Props.C11.hashStr_inj
